@@ -91,6 +91,28 @@ func findDefinitionTarget(journal *ast.Journal, pos protocol.Position) *definiti
 		}
 	}
 
+	// The name written in an account or commodity directive is an occurrence too.
+	for _, dir := range journal.Directives {
+		switch d := dir.(type) {
+		case ast.AccountDirective:
+			if positionInRange(pos, d.Account.Range) {
+				return &definitionTarget{
+					context:     DefContextAccount,
+					name:        d.Account.Name,
+					symbolRange: astRangeToProtocol(d.Account.Range),
+				}
+			}
+		case ast.CommodityDirective:
+			if d.Commodity.Symbol != "" && positionInRange(pos, d.Commodity.Range) {
+				return &definitionTarget{
+					context:     DefContextCommodity,
+					name:        d.Commodity.Symbol,
+					symbolRange: astRangeToProtocol(d.Commodity.Range),
+				}
+			}
+		}
+	}
+
 	return nil
 }
 
